@@ -27,6 +27,7 @@ type slOp struct {
 	recvr int    // 0 the node itself, i = peer i (the mule lets a sensor have what it "received" for)
 	dest  int    // 0 elsewhere, i = peer i's node (direct delivery while connected)
 	noblk bool   // binary spray: the received bundle carries no binary-spray block
+	lsts  uint64 // dtlsr: the received broadcast carries a DTLSR block from originator dtn://lso/ with this timestamp (0 = no block)
 	p     int
 }
 
@@ -180,6 +181,10 @@ func (x *slScen) do(op slOp) {
 			if x.algo == "binary_spray" && !op.noblk {
 				bl = bl.Canonical(bpv7.NewBinarySprayBlock(8))
 			}
+			if x.algo == "dtlsr" && op.lsts != 0 {
+				bl = bl.Canonical(bpv7.NewDTLSRBlock(bpv7.DTLSRPeerData{ID: MustEID("dtn://lso/"), Timestamp: bpv7.DtnTime(op.lsts),
+					Peers: map[bpv7.EndpointID]bpv7.DtnTime{MustEID("dtn://lsp/"): 0}}))
+			}
 		}
 		b, err := bl.Build()
 		if err != nil {
@@ -302,6 +307,10 @@ func genC13sentlist(o *Out, r *Rng, thorough bool) {
 		{kind: "recv", b: 2, prev: 0}, up(4), tick})
 	// binary spray: a bundle relayed by a node that does not speak binary spray (no spray block)
 	slRunScen(o, "bspray-noblock", "binary_spray", 2, nil, nil, []slOp{up(1), up(2), {kind: "recv", b: 1, prev: 1, noblk: true}, tick})
+	// dtlsr: link-state broadcasts of one originator arriving out of order (the older one after the
+	// newer one, and one with an equal timestamp): each is still relayed, never back to where it came from
+	slRunScen(o, "dtlsr-outdated-linkstate", "dtlsr", 3, nil, nil, []slOp{up(1), up(2), up(3),
+		{kind: "recv", b: 1, prev: 1, lsts: 1000}, {kind: "recv", b: 2, prev: 2, lsts: 500}, {kind: "recv", b: 3, prev: 3, lsts: 1000}, tick})
 	// direct delivery bypasses the algorithm
 	slRunScen(o, "direct", "epidemic", 2, nil, nil, []slOp{up(1), {kind: "recv", b: 1, prev: 9, dest: 2}, up(2), tick})
 
